@@ -198,6 +198,17 @@ Definition spec_serve (cf : config) (q : query) (down : option (msg * N)) (work 
        end
   (* a synthesised answer section (alias chain included) does not outlive the request tree *)
   && implb synth match cut with Some s => forallb (fun r => rr_ttl r <=? s) (o_answer o) | None => true end
+  (* ... and so does no reply to an AAAA question that was composed with the help
+     of the secondary lookup (session 5, /repo 1a0e74f: the alias chain relayed on
+     the RFC 6147 5.1.6 route): every answer record that is not one of the
+     downstream reply's own records has a TTL within the request tree's bound —
+     the bound carries what is left of the negative AAAA answer that gated the
+     composition *)
+  && implb (o_written o && o_aq o && (q_type q =? 28))
+       match cut with
+       | Some s => forallb (fun r => rr_in r down_ans || (rr_ttl r <=? s)) (o_answer o)
+       | None => true
+       end
   (* never AD on a synthesised or AAAA-filtered reply *)
   && implb (o_written o && (synth || existsb (fun r => is_aaaa r && negb (rr_in r (o_answer o))) down_ans))
        (negb (o_ad o))
